@@ -131,6 +131,11 @@ REGISTRY['C10'] = numeric('C10', 'c10_views.cpp', nq=2500, nt=250000, groups_q=C
                                'mutable view; every viewed buffer is, at random, an exactly-sized malloc block (ASan red-zones), the same shifted by one scalar (8-/4-byte-only alignment), or embedded between NaN-payload canaries compared bit for bit '
                                'after each call; copy/move/cross-kind construction and assignment; ' + RULE_STRATA, assumptions=ASSUME_FP + ['ASan red-zones detect reads/writes adjacent to exactly-sized heap blocks; far out-of-bounds accesses could escape them'])
 
+REGISTRY['C11'] = numeric('C11', 'c11_bundle.cpp', nq=1500, nt=150000, groups_q=ALL_BUNDLES, groups_t=ALL_BUNDLES, float_groups=['BT3', 'BT5', 'BA'],
+                          rule='21 bundle layouts (7 cyclic triples of SO2 SE2 SO3 SE3 SE_2_3 SGal3 R3 = every group first/middle/last, 7 single-element bundles, 3 with repeats, one of all seven + R5, the 3 layouts of the existing tests); per case '
+                               '24 bundle operations are computed once and compared bit for bit, element by element, with the standalone element group at offsets from the monitor\'s own prefix sums; 22 Jacobian-like outputs pre-filled with NaN must be '
+                               'block-diagonal with exact zeros elsewhere; every generator index of every layout is enumerated; a cell is (operation, layout, element index); ' + RULE_STRATA, assumptions=ASSUME_FP)
+
 def c08_spec():
     groups = [('SO2', 'double'), ('SE2', 'double'), ('SO3', 'double'), ('SE3', 'double'), ('SE23', 'double'), ('SGAL3', 'double'), ('BT1', 'double'), ('BT4', 'double'), ('SO3', 'float'), ('SE2', 'float'), ('SE3', 'float')]
     scheds = ['uniform', 'square', 'xxinv', 'tiny', 'pi', 'pingpong']
@@ -449,6 +454,9 @@ MANIFEST_META = {
     'C10': dict(engine='bit-exact differential monitor', design_ref='DESIGN.md 4/C10', technique='bit-exact differential runtime monitor over operand storage kinds with guard zones (NaN canaries) and ASan red-zones on exactly-sized blocks',
                 text='About 45 operations are evaluated for 9 combinations of {owning, Map, Map<const>} operand kinds and must reproduce the owning computation bit for bit; 25 mutating members executed through mutable views must change exactly the viewed RepSize/DoF scalars: buffers are exactly-sized heap blocks (ASan red-zones), misaligned variants, or embedded between canaries compared bit-wise after every call.',
                 note='ASan red-zones catch adjacent overruns only; intra-buffer errors are caught by the canaries and by value comparison. ' + NOTE_NUM),
+    'C11': dict(engine='bit-exact differential monitor', design_ref='DESIGN.md 4/C11', technique='bit-exact differential runtime monitor: bundle operation vs per-element operation at independently computed offsets; NaN-prefilled Jacobians',
+                text='For 21 layouts each bundle operation (exp, log, compose, inverse, between, rplus, lplus, rminus, lminus, act with both Jacobians, adj, hat, vee, rjac/ljac and inverses, smallAdj, bracket, generators, inner weights, Random, transform) is compared bit for bit with the same operation on each standalone element placed at the offset given by the monitor\'s own prefix sums; Jacobians pre-filled with NaN must come back block-diagonal with exact zeros elsewhere; element<i>() must alias exactly the i-th coefficients.',
+                note='Layouts are a fixed list covering every element group in first/middle/last position, repeats and single elements; inputs are random draws per layout. ' + NOTE_NUM),
     'C14': dict(engine='tsan launcher', design_ref='DESIGN.md 4/C14', technique='ThreadSanitizer over many process launches with barrier-released concurrent first use of every static + bit-exact comparison with a single-threaded run',
                 text='Each launch releases 2..16 threads from a spinning barrier into the first use in the process of every function-local static of 11 group instantiations and then into 22 const operations per group on shared const elements, tangents and Map<const> views; ThreadSanitizer reports with a frame in /repo/include are violations (counted from log files, deduplicated by innermost manif frames), and every thread must reproduce the single-threaded values bit for bit.',
                 note='Schedules: 48 (quick) / 1500 (thorough) launches, each one first-use schedule (distinct schedule signatures are counted in the evidence); held on those schedules only. TSan sees only what gcc instruments; Random()/setRandom() are excluded (rand()).', ),
